@@ -7,6 +7,7 @@ import (
 	stdjson "encoding/json"
 	"fmt"
 	"io"
+	"math"
 	"strconv"
 	"unicode/utf8"
 	"unsafe"
@@ -751,7 +752,7 @@ func c17Next(tr *c17TaskRes, s *tokState) (more bool) {
 		tr.nums++
 		lit := string(e.raw)
 		if f, err := strconv.ParseFloat(lit, 64); err == nil {
-			if got := tok.Float(); got != f {
+			if got := tok.Float(); math.Float64bits(got) != math.Float64bits(f) {
 				return fail("float", "Float() %v, expected %v for %s", got, f, lit)
 			}
 		}
